@@ -56,8 +56,6 @@ impl PathBuf {
     pub fn into(self) -> (r: PathBuf) ensures r == self { unimplemented!() }
     #[verifier::external_body]
     pub fn as_path(&self) -> (r: &Path) ensures r.buf() == *self { unimplemented!() }
-    #[verifier::external_body]
-    pub fn new() -> PathBuf { unimplemented!() }
 }
 impl std::borrow::Borrow<Path> for PathBuf {
     #[verifier::external_body]
